@@ -432,5 +432,104 @@ def oracles(ctx, deep):
         r0, r1 = r[1]
         if not torch.equal(r0["target_sampling_mask"], r1["target_sampling_mask"]) or not torch.equal(r0["input_sampling_mask"], r1["input_sampling_mask"]):
             add(Violation("split-deterministic", "%s splitter with candidate ratios %s: the split of (vol.h5, slice 3) depends on the calls the instance served before (target sizes %d vs %d)" % (split, ratios, int(r0["target_sampling_mask"].sum()), int(r1["target_sampling_mask"].sum())), {"config": cfg, "mask": _cells(m)}, {"splitter": split, "kind": "determinism-history"}))
+    # the split is a function of the mask given now: (a) one instance serving the same (file name, slice) again with another
+    # mask of the same shape, in a later call or in the same batch; (b) the same mask values in another memory layout
+    from direct.ssl.ssl import HalfMaskSplitterModule
+
+    def _check(tag, split, cfg, res, b, m, a, keep):
+        i1, t1 = res["input_sampling_mask"][b, 0, :, :, 0], res["target_sampling_mask"][b, 0, :, :, 0]
+        if not torch.equal(i1 | t1, m):
+            add(Violation("split-union", "%s splitter (%s): input | target != the sampling mask of this call" % (split, tag), {"config": cfg, "sample": b, "mask": _cells(m), "input": _cells(i1), "target": _cells(t1)}, {"splitter": split, "kind": "union-" + tag}))
+            return False
+        if not torch.equal(i1 & t1, a if keep else torch.zeros_like(m)):
+            add(Violation("split-intersection", "%s splitter (%s): input & target is not %s" % (split, tag, "the ACS region" if keep else "empty"), {"config": cfg, "sample": b}, {"splitter": split, "kind": "intersection-" + tag}))
+            return False
+        k = res["_k"][b]
+        if not torch.equal(res["input_masked_kspace"][b], torch.where(i1[None, :, :, None], k, torch.zeros(1))) or not torch.equal(res["target_masked_kspace"][b], torch.where(t1[None, :, :, None], k, torch.zeros(1))):
+            add(Violation("split-kspace", "%s splitter (%s): split k-spaces are not the k-space restricted to the two masks" % (split, tag), {"config": cfg, "sample": b}, {"splitter": split, "kind": "kspace-" + tag}))
+            return False
+        return True
+
+    for t in range(ctx.n(45, 400) * (2 if deep else 1)):
+        rng = _random.Random(ctx.seed * 104729 + t)
+        split = rng.choice(["uniform", "gaussian", "half"])
+        n = rng.randint(6, 12)
+        nrow, ncol = (n, n) if rng.random() < 0.4 else (n, rng.randint(6, 12))
+        ratio = rng.choice([0.3, 0.5, 0.7])
+        keep = rng.random() < 0.3
+        cfg = {"splitter": split, "shape": [nrow, ncol], "ratio": ratio, "keep_acs": keep, "trial": t}
+        runs += 1
+
+        def make():
+            if split == "uniform":
+                return UniformMaskSplitterModule(ratio=ratio, acs_region=(2, 2), keep_acs=keep, use_seed=True)
+            if split == "gaussian":
+                return GaussianMaskSplitterModule(ratio=ratio, acs_region=(2, 2), keep_acs=keep, use_seed=True)
+            return HalfMaskSplitterModule(acs_region=(2, 2), keep_acs=keep, use_seed=True)
+
+        def acs_of(m):
+            a = torch.zeros_like(m)
+            a[nrow // 2 - 1 : nrow // 2 + 1, ncol // 2 - 1 : ncol // 2 + 1] = True
+            return a & m
+
+        def batch_of(ms, names, slices, layout="plain"):
+            B = len(ms)
+            kk = torch.arange(B * 2 * nrow * ncol * 2, dtype=torch.float32).reshape(B, 2, nrow, ncol, 2) + 1.0
+            sm = torch.stack(ms)[:, None, :, :, None]
+            if layout == "transposed":    # same values, strides of the transposed array
+                sm = torch.stack([m.t().contiguous() for m in ms])[:, None, :, :, None].transpose(2, 3)
+            elif layout == "sliced":      # a view into a wider buffer
+                big = torch.zeros(B, 1, nrow, 2 * ncol, 1, dtype=torch.bool)
+                big[:, :, :, ::2] = sm
+                sm = big[:, :, :, ::2]
+            assert torch.equal(sm[:, 0, :, :, 0], torch.stack(ms))
+            ac = torch.stack([acs_of(m) for m in ms])[:, None, :, :, None]
+            return {"sampling_mask": sm, "acs_mask": ac, "masked_kspace": torch.where(sm, kk, torch.zeros(1)), "filename": list(names), "slice_no": list(slices)}, kk
+
+        ma, mb = _mask(rng, "2d", nrow, ncol), _mask(rng, rng.choice(["2d", "line"]), nrow, ncol)
+
+        def go_hist():
+            mod = make()
+            s0, _ = batch_of([ma], ["vol.h5"], [3])
+            mod(s0)
+            s1, k1 = batch_of([mb], ["vol.h5"], [3])
+            r1 = mod(s1)
+            r1["_k"] = torch.where(s1["sampling_mask"], k1, torch.zeros(1))
+            s2, k2 = batch_of([ma, mb], ["vol.h5", "vol.h5"], [3, 3])
+            r2 = make()(s2)
+            r2["_k"] = torch.where(s2["sampling_mask"], k2, torch.zeros(1))
+            return r1, r2
+
+        r = G.guarded(go_hist, 8)
+        if r[0] == "ok":
+            r1, r2 = r[1]
+            _check("same file and slice seen before with another mask", split, cfg, r1, 0, mb, acs_of(mb), keep)
+            for b, m in enumerate([ma, mb]):
+                _check("same file and slice twice in one batch", split, cfg, r2, b, m, acs_of(m), keep)
+        elif r[0] != "hang":
+            add(Violation("split-returns", "%s splitter raises %s on a repeated (file name, slice): %s" % (split, r[1], r[2]), {"config": cfg}, {"splitter": split, "kind": "raises-history"}))
+        for layout in ("transposed", "sliced"):
+            def go_lay(layout=layout):
+                s0, k0 = batch_of([ma, mb], ["a.h5", "b.h5"], [1, 2])
+                ref = make()(s0)
+                s1, _ = batch_of([ma, mb], ["a.h5", "b.h5"], [1, 2], layout)
+                got = make()(s1)
+                got["_k"] = torch.where(s0["sampling_mask"], k0, torch.zeros(1))
+                return ref, got
+
+            r = G.guarded(go_lay, 8)
+            cfgl = dict(cfg, layout=layout)
+            if r[0] == "hang":
+                continue
+            if r[0] != "ok":
+                add(Violation("split-returns", "%s splitter raises %s on a sampling mask that is a %s view: %s" % (split, r[1], layout, r[2]), {"config": cfgl}, {"splitter": split, "kind": "raises-layout"}))
+                continue
+            ref, got = r[1]
+            for b, m in enumerate([ma, mb]):
+                if not _check("mask given as a %s view" % layout, split, cfgl, got, b, m, acs_of(m), keep):
+                    break
+                if not torch.equal(ref["target_sampling_mask"][b], got["target_sampling_mask"][b]):
+                    add(Violation("split-deterministic", "%s splitter: the split of a mask given as a %s view differs from the split of the same mask stored contiguously (target sizes %d vs %d)" % (split, layout, int(got["target_sampling_mask"][b].sum()), int(ref["target_sampling_mask"][b].sum())), {"config": cfgl, "sample": b, "mask": _cells(m)}, {"splitter": split, "kind": "determinism-layout"}))
+                    break
     ctx.oracle_runs = runs
     return out
